@@ -682,8 +682,9 @@ func (v *Verifier) doAppend(s *State, dst, src *Value, pos token.Pos) *Value {
 		base := rOff
 		rel := Sub(j, base)
 		elemAt := Select(na, j)
-		fromDst := Select(oldDst, Add(dst.sOff(), rel))
-		fromSrc := Select(srcArr, Add(srcOff, Sub(rel, dst.sLen())))
+		// element indices in the elt(off, i) form that quantified facts about the operands use as trigger
+		fromDst := Select(oldDst, Elt(dst.sOff(), rel))
+		fromSrc := Select(srcArr, Elt(srcOff, Sub(rel, dst.sLen())))
 		body := Implies(And(Le(base, j), Lt(j, Add(base, newLen))), Eq(elemAt, Ite(Lt(rel, dst.sLen()), fromDst, fromSrc)))
 		// definitions of the fresh array `na`: stated globally, not under the path condition
 		addFact(na, Forall([]*Term{j}, body, []*Term{elemAt}))
